@@ -36,7 +36,7 @@ func init() {
 	contextFunctions[symbols.NT_StepWithAxisAndNodeTest] = leftRightDependentResult
 	contextFunctions[symbols.NT_StepWithAxisAndNodeTestAndPredicate] = leftRightDependentResult
 	contextFunctions[symbols.NT_StepWithPredicateWithAnotherPredicate] = leftRightDependentResult
-	contextFunctions[symbols.NT_FilterExprWithPredicate] = leftRightDependentResult
+	contextFunctions[symbols.NT_FilterExprWithPredicate] = execFilterExprWithPredicate
 	contextFunctions[symbols.NT_AxisName] = execAxisName
 	contextFunctions[symbols.NT_AbbreviatedStepParent] = execAbbreviatedStepParent
 	contextFunctions[symbols.NT_AbbreviatedAxisSpecifier] = execAbbreviatedAxisSpecifier
@@ -177,6 +177,30 @@ func execPredicate(context *exprContext, expr *grammar.Grammar) error {
 
 	context.result = nextResult
 	return nil
+}
+
+func execFilterExprWithPredicate(context *exprContext, expr *grammar.Grammar) error {
+	children := make([]*bsr.BSR, 0, 2)
+
+	for _, cn := range expr.BSR.GetAllNTChildren() {
+		for _, c := range cn {
+			children = append(children, &c)
+		}
+	}
+
+	if err := execContext(context, expr.Next(children[0])); err != nil {
+		return err
+	}
+
+	// The predicate of a filter expression numbers the nodes in document
+	// order, whatever order the filtered expression delivered them in.
+	if nodeSet, ok := context.result.(NodeSet); ok {
+		sorted := make(NodeSet, len(nodeSet))
+		copy(sorted, nodeSet)
+		context.result = cleanupForwardAxis(sorted)
+	}
+
+	return execContext(context, expr.Next(children[1]))
 }
 
 func execNodeTestNodeTypeNoArgTest(context *exprContext, expr *grammar.Grammar) error {
